@@ -17,6 +17,9 @@ def solve(spec, flip=False):
         if flip:
             a, b = b, a
         ws.append(Wire(n, *a, *b, r))
+    for w, t in zip(ws, spec.get('taper') or []):
+        if t:
+            w.segtype = t          # tapered segmentation: unequal segment lengths inside one wire
     m = Mininec(spec['f'], ws, media=[ideal_ground] if spec['ground'] else None)
     m.register_source(Excitation(1 + 0j), spec['feed'] if not flip else spec['feed_flipped'])
     m.compute()
@@ -126,15 +129,23 @@ def check(spec):
     e_far = np.sqrt(abs(et) ** 2 + abs(ep) ** 2)
     e_near = np.linalg.norm(E)
     e_ref = max(e_far, 0.25 * emax)
-    if e_far > 0 and abs(e_near - e_far) > 0.015 * e_ref:
+    # a tapered wire has neighbouring segments whose lengths differ by a factor of two: the pulse/charge discretisation
+    # error of the far-distance comparison is larger there (1-3 % at 6-8 segments, 0.3 % at 24, same limit as the untapered
+    # wire), so these criteria are taken twice as wide for tapered models; the 1 % clause close to the antenna is not
+    tolf = 2.0 if any(spec.get('taper') or []) else 1.0
+    if max(sg.seg_len for p in m.pulses for sg in p.segs) > lam / 12:
+        # a taper may leave a first segment of 0.15 wavelength: outside the validity of the pulse model altogether (the
+        # usual rule is a tenth at most); the far-distance criteria are not applied to such a model
+        tolf = 1e9
+    if e_far > 0 and abs(e_near - e_far) > 0.015 * tolf * e_ref:
         viol.append({'id': 'near-field-does-not-merge-into-the-far-field', 'expected': float(e_far), 'observed': float(e_near),
                      'relative': float(abs(e_near - e_far) / e_ref)})
     h_near = np.linalg.norm(H)
-    if h_near > 0 and e_far >= 0.25 * emax and abs(e_near / h_near - 376.73) > 0.015 * 376.73:
+    if h_near > 0 and e_far >= 0.25 * emax and abs(e_near / h_near - 376.73) > 0.015 * tolf * 376.73:
         viol.append({'id': 'E/H-is-not-376.7-ohm', 'observed': float(e_near / h_near)})
     for nm, v, ref in (('E', E, e_ref), ('H', H, e_ref / 376.73)):
         rad = abs(np.dot(v, rh)) / max(np.linalg.norm(v), ref, 1e-300)
-        if rad > 0.02:
+        if rad > 0.02 * tolf:
             viol.append({'id': nm + '-not-transverse', 'observed': float(rad)})
     # close to the antenna: against the independent integral of currents and charges (1 %)
     prng = random.Random(int(spec['R_lam'] * 1000))
@@ -203,10 +214,13 @@ def gen(rng):
                 c = b + dv / np.linalg.norm(dv) * n2 * seg
             ws.append((n2,) + ((tuple(b) + tuple(c)) if rng.random() < 0.5 else (tuple(c) + tuple(b))) + (0.002,))
         feed = n // 2
+    taper = [0] * len(ws)
+    if not ground and len(ws) == 1 and rng.random() < 0.5 or len(ws) > 1 and rng.random() < 0.25:
+        taper[0] = rng.choice([1, 2, 3])
     nfirst = ws[0][0]
     npulses_first = nfirst - 1 + (1 if ground else 0)
     spec = {'wires': [tuple(float(x) if k else int(x) for k, x in enumerate(w)) for w in ws], 'ground': ground, 'f': f,
-            'feed': feed, 'feed_flipped': (npulses_first - 1 - feed) if True else feed,
+            'taper': taper, 'feed': feed, 'feed_flipped': (npulses_first - 1 - feed) if True else feed,
             'R_lam': rng.uniform(150, 300), 'zen': rng.choice([20.0, 45.0, 60.0, 75.0]), 'azi': rng.choice([0.0, 30.0, 110.0, 250.0])}
     return spec
 
